@@ -341,13 +341,34 @@ def k2(observations, tag, keys=("default", "clone")):
         for key in keys:
             cases.append((o["index"], key))
     lookup = {o["index"]: o for o in observations}
-    shards = shard(list(enumerate(cases)), 16)
+    # layout variants of one specification have the same Ast and the same generated text: the
+    # model is evaluated once per distinct (Ast, derive, real text) and the verdict shared
+    rendered, rep, members = {}, {}, {}
+    for n, (i, key) in enumerate(cases):
+        t = k2_case(0, lookup[i], key)
+        if t not in rep:
+            rep[t] = n
+            rendered[n] = k2_case(n, lookup[i], key)
+        members.setdefault(rep[t], []).append(n)
+    uniq = sorted(rendered)
+    # bounded files (a coqc job needs ~1.7 GB per MB of case text; 16 run at a time)
+    shards, cur, size = [], [], 0
+    for n in uniq:
+        if cur and size + len(rendered[n]) > 1200000:
+            shards.append(cur)
+            cur, size = [], 0
+        cur.append(n)
+        size += len(rendered[n])
+    if cur:
+        shards.append(cur)
+    if len(shards) < 16 and len(uniq) >= 16:
+        shards = [[n for _, n in sh] for sh in shard(list(enumerate(uniq)), 16)]
 
     def run(sh_i):
         si, items = sh_i
         body = ["From XdrModel Require Import Check.", "Open Scope string_scope.",
                 "Definition cases : list (N * ast * string * real_gen) := ["]
-        body.append(";\n".join(k2_case(n, lookup[i], key) for n, (i, key) in items))
+        body.append(";\n".join(rendered[n] for n in items))
         body.append("].")
         body.append("Eval vm_compute in (k2_run cases).")
         out = coq_eval("k2_%s_%d" % (tag, si), "\n".join(body))
@@ -357,8 +378,9 @@ def k2(observations, tag, keys=("default", "clone")):
     dis = []
     for r in res:
         for n, code in r:
-            i, key = cases[n]
-            dis.append((i, key, code))
+            for m in members[n]:
+                i, key = cases[m]
+                dis.append((i, key, code))
     bad_header = [(o["index"], key) for o in observations for key in keys
                   if o["gen_" + key]["outcome"] == "ok" and not o["gen_" + key]["header_ok"]]
     return len(cases), dis, bad_header
